@@ -3,6 +3,7 @@ package main
 import (
 	"fmt"
 	"go/constant"
+	"go/token"
 	"go/types"
 	"strings"
 
@@ -136,6 +137,7 @@ func runC15(r *Report) {
 	for _, u := range samePkgReach(mark, 2) {
 		ls := ComputeLockSets(u, nil)
 		var exists, sets []ssa.CallInstruction
+		heldW := map[ssa.CallInstruction]bool{}
 		for _, c := range Calls(u, false, "Exists", "Set") {
 			if !c.Common().IsInvoke() {
 				continue
@@ -145,17 +147,38 @@ func runC15(r *Report) {
 			} else {
 				sets = append(sets, c)
 			}
-			held := r.held(ls, c.(ssa.Instruction), "internal/core/idgen", "StorageIDGenerator", "mu") == "W" ||
+			heldW[c] = r.held(ls, c.(ssa.Instruction), "internal/core/idgen", "StorageIDGenerator", "mu") == "W" ||
 				callersHold(r.P, u, r.lockFor("internal/core/idgen", "StorageIDGenerator", "", "mu"), true, 2, map[*ssa.Function]bool{})
-			r.Ob("R-C15-2", CallPos(c), held, "the non-atomic fallback ("+CalleeOf(c).Name+") runs under the generator's mutex, write-locked", "tryMarkAsUsed", "fallback-locked:"+CalleeOf(c).Name)
 		}
-		for _, e := range exists {
-			for _, st := range sets {
-				if CanReach(e.Block(), st.Block()) {
-					ub := unlockBetween(e.(ssa.Instruction), st.(ssa.Instruction))
-					r.Ob("R-C15-2", CallPos(st), ub == nil, "the fallback's existence check and its write happen in one locked section (released in between, two callers both find the id free and both take it)", "tryMarkAsUsed", "fallback-one-section")
+		// the deciding check of a write: an existence check, write-locked, in the same locked section as
+		// the write.  Another check made earlier without the write lock is a pre-check (it can only
+		// refuse early); it does not decide.
+		decided := map[ssa.CallInstruction]bool{}
+		for _, st := range sets {
+			for _, e := range exists {
+				if heldW[e] && heldW[st] && CanReach(e.Block(), st.Block()) && unlockBetween(e.(ssa.Instruction), st.(ssa.Instruction)) == nil {
+					decided[st] = true
 				}
 			}
+		}
+		allDecided := len(sets) > 0
+		for _, st := range sets {
+			if !decided[st] {
+				allDecided = false
+			}
+		}
+		for _, c := range append(append([]ssa.CallInstruction{}, exists...), sets...) {
+			ok := heldW[c]
+			if !ok && CalleeOf(c).Name == "Exists" && allDecided {
+				ok = true // a pre-check before the locked re-check
+			}
+			r.Ob("R-C15-2", CallPos(c), ok, "the non-atomic fallback ("+CalleeOf(c).Name+") runs under the generator's mutex, write-locked (an unlocked existence check is only a pre-check of a locked one)", "tryMarkAsUsed", "fallback-locked:"+CalleeOf(c).Name)
+		}
+		for _, st := range sets {
+			if len(exists) == 0 {
+				continue
+			}
+			r.Ob("R-C15-2", CallPos(st), decided[st], "the fallback's write is decided by an existence check in the same write-locked section (released in between, two callers both find the id free and both take it)", "tryMarkAsUsed", "fallback-one-section")
 		}
 	}
 	for _, name := range []string{"Release", "IsUsed"} {
@@ -280,7 +303,7 @@ func runC15(r *Report) {
 			if _, n := recvTypeName(last.Type()); n != "Duration" {
 				continue
 			}
-			r.Ob("R-C15-3", CallPos(c), stripValue(last) == ssa.Value(ttlParam), "hybrid SetNX hands the caller's ttl to the tier unchanged ("+originSummary(last)+")", "hybrid.Storage.SetNX", "claim-lifetime-unchanged:"+c.Common().Method.Name())
+			r.Ob("R-C15-3", CallPos(c), ttlPreserved(last, ttlParam, 0), "hybrid SetNX hands the caller's ttl to the tier unchanged, or through a helper that returns every positive ttl as it is ("+originSummary(last)+")", "hybrid.Storage.SetNX", "claim-lifetime-unchanged:"+c.Common().Method.Name())
 		}
 	}
 
@@ -471,4 +494,73 @@ func sameCandidate(a, b ssa.Value) bool {
 		return true
 	}
 	return originSummary(a) == originSummary(b) && originSummary(a) != ""
+}
+
+// ttlPreserved: v is the ttl parameter itself, or the result of a same-package helper applied to a
+// preserved ttl whose every return hands its own ttl parameter back, except constants returned on the
+// edge where that parameter is not positive (normalising "no expiry"): a positive lifetime is never
+// shortened or replaced.
+func ttlPreserved(v ssa.Value, ttl *ssa.Parameter, depth int) bool {
+	v = stripValue(v)
+	if v == ssa.Value(ttl) {
+		return true
+	}
+	// a reassigned parameter (`ttl = h.normalise(ttl)`) reads through its cell / phi
+	if ph, ok := v.(*ssa.Phi); ok && depth < 3 {
+		for _, e := range ph.Edges {
+			if !ttlPreserved(e, ttl, depth+1) {
+				return false
+			}
+		}
+		return true
+	}
+	c, ok := v.(*ssa.Call)
+	if !ok || depth > 2 {
+		return false
+	}
+	h := c.Common().StaticCallee()
+	if h == nil || len(h.Blocks) == 0 || h.Pkg != ttl.Parent().Pkg {
+		return false
+	}
+	var hp *ssa.Parameter
+	for i, a := range c.Call.Args {
+		if ttlPreserved(a, ttl, depth+1) && i < len(h.Params) {
+			if _, n := recvTypeName(h.Params[i].Type()); n == "Duration" {
+				hp = h.Params[i]
+			}
+		}
+	}
+	if hp == nil {
+		return false
+	}
+	for _, ret := range Returns(h) {
+		if len(ret.Results) != 1 {
+			return false
+		}
+		rv := stripValue(RetVal(ret, 0))
+		if rv == ssa.Value(hp) {
+			continue
+		}
+		if _, isC := rv.(*ssa.Const); isC {
+			nonPos := false
+			for _, ft := range Facts(ret.Block()) {
+				bo, ok := ft.Cond.(*ssa.BinOp)
+				if !ok || stripValue(bo.X) != ssa.Value(hp) {
+					continue
+				}
+				k, isK := ConstInt(bo.Y)
+				if !isK || k != 0 {
+					continue
+				}
+				if (bo.Op == token.LEQ && ft.Pol) || (bo.Op == token.GTR && !ft.Pol) || (bo.Op == token.EQL && ft.Pol) || (bo.Op == token.LSS && ft.Pol) {
+					nonPos = true
+				}
+			}
+			if nonPos {
+				continue
+			}
+		}
+		return false
+	}
+	return true
 }
